@@ -163,7 +163,10 @@ func (ex *Exec) invoke(fr *Frame, st *State, c *ssa.CallCommon, recv Val, args [
 			ptypes = append(ptypes, sig.Params().At(i).Type())
 		}
 		ex.assumedUsed["iface "+key] = true
-		return ex.applyContract(fr, st, ic, key, names, ptypes, append([]Val{recv}, args...), resT, x)
+		all := append([]Val{recv}, args...)
+		res := ex.applyContract(fr, st, ic, key, names, ptypes, all, resT, x)
+		ex.fireOnCallTyped(fr, st, key, all, ptypes, res, x, resT)
+		return res
 	}
 	// error.Error(), fmt.Stringer etc. on externals: pure
 	if !isRepoType(c.Value.Type()) {
@@ -532,7 +535,22 @@ func (ex *Exec) bindResult(env *Env, res Val, resT types.Type) {
 
 // fireOnCall applies the ghost updates declared by `oncall` rules.
 func (ex *Exec) fireOnCall(fr *Frame, st *State, key string, args []Val, res Val, before bool, x ssa.CallInstruction, resT types.Type) {
-	if ex.contract == nil || !fr.isTop || before {
+	if before {
+		return
+	}
+	var ptypes []types.Type
+	if x != nil {
+		if callee := x.Common().StaticCallee(); callee != nil {
+			for _, p := range callee.Params {
+				ptypes = append(ptypes, p.Type())
+			}
+		}
+	}
+	ex.fireOnCallTyped(fr, st, key, args, ptypes, res, x, resT)
+}
+
+func (ex *Exec) fireOnCallTyped(fr *Frame, st *State, key string, args []Val, ptypes []types.Type, res Val, x ssa.CallInstruction, resT types.Type) {
+	if ex.contract == nil || !fr.isTop {
 		return
 	}
 	short := key
@@ -548,14 +566,6 @@ func (ex *Exec) fireOnCall(fr *Frame, st *State, key string, args []Val, res Val
 		}
 		ex.callOrd[oc.Callee]++
 		env := ex.loopEnv(fr, st)
-		var ptypes []types.Type
-		if x != nil {
-			if callee := x.Common().StaticCallee(); callee != nil {
-				for _, p := range callee.Params {
-					ptypes = append(ptypes, p.Type())
-				}
-			}
-		}
 		for i, a := range args {
 			var t types.Type
 			if i < len(ptypes) {
@@ -586,6 +596,16 @@ func (ex *Exec) fireOnCall(fr *Frame, st *State, key string, args []Val, res Val
 		nv := map[string]Val{}
 		for _, a := range oc.Assigns {
 			v := ex.eval(a.Expr.Expr, env).V
+			if a.Expr.Index != nil {
+				cur, ok := st.ghost[a.Name].(SV)
+				if !ok {
+					ex.unsup("indexed assignment to ghost " + a.Name + " that is not an array")
+					continue
+				}
+				idx := ex.term(ex.eval(a.Expr.Index, env).V, "")
+				_, es := arrayKV(cur.T.Sort)
+				v = SV{Store(cur.T, idx, ex.term(v, es))}
+			}
 			if cur, ok := st.ghost[a.Name]; ok {
 				v = ex.mergeVal(cond, v, cur)
 			}
